@@ -65,6 +65,13 @@ Spec == Init /\ [][Next]_hvars
 (* design-level sanity of the map model *)
 OnlyCacheableStored == \A t \in TasksOf(u) : Has(store, t) => CacheableIn(u, t)
 StoredValuesWellFormed == \A t \in TasksOf(u) : Has(store, t) => store[t].val[1] = t
+(* the map changes only where the call says so: a run replaces exactly the entries of the cacheable tasks it *)
+(* executed, an uncache removes exactly the named entries                                                     *)
+OnlyOwnEntryChanges ==
+  [][\A t \in TasksOf(u) : store'[t] # store[t] =>
+        LET h == hist'[Len(hist')] IN
+        \/ h.op = "uncache" /\ t \in SetOf(h.ts) /\ store'[t] = <<>>
+        \/ h.op = "run" /\ t \in Executed(u, store, h.req, h.bust) /\ CacheableIn(u, t)]_hvars
 PrintHistory == (Emit /\ Len(hist) = MaxLen /\ hist[1].op = "run") =>
                    PrintT("@@" \o ToJson([ui |-> ui, hist |-> hist]))
 =============================================================================
